@@ -35,6 +35,9 @@ func init() {
 				Quick: map[string]int{"nmax": 2}, Thorough: map[string]int{"nmax": 3},
 				Reach:     []string{"failure signal", "answer accepted"},
 				Functions: []string{"queryer.(*MultiOpQueryer).Query", "queryer.(*MultiOpQueryer).queryBatch", "queryer.(*MultiOpQueryer).fetch", "queryer.(*MultiOpQueryer).sendQueryRequest", "queryer.(*MultiOpQueryer).sendRequest"}},
+			// a request that carries a file (a mutation, as a rule) travels in exactly one HTTP call, also when that call fails
+			{Name: "upload-sent-once", Pkg: "queryer", Files: []string{"queryer/c09.go"}, Entry: "VerifUploadAnswers", Mode: "seq",
+				Reach: []string{"upload failure signal", "upload answer accepted"}, Functions: []string{"queryer.(*MultiOpQueryer).Query", "queryer.(*MultiOpQueryer).queryBatch", "queryer.(*MultiOpQueryer).fetchFile", "queryer.(*MultiOpQueryer).sendMultipartRequest"}},
 		},
 		Assume:  []string{"gqlparser runs natively on concrete strings", "one canonical goroutine schedule", "single fault: one downstream call of one service fails", "one-post-per-call: net/http's client is the model (Do hands the request to the harness transport once; Request.GetBody is set as net/http.NewRequest does for in-memory bodies); status symbolic in [100,599], body shapes of the C09 descriptor"},
 		Outside: []string{"mutation operations beyond the scenario list", "sequences of several faults"},
